@@ -175,14 +175,22 @@ class Shard:
         }
 
 
+class HangError(Exception):
+    """A guarded call did not finish within the (very generous) wall-clock
+    watchdog; reported as an exception of the call."""
+
+
 def guard(fn, *a, **kw):
-    """Call fn; return ('ok', value) or ('exc', exception)."""
-    try:
-        return "ok", fn(*a, **kw)
-    except RecursionError as e:  # keep separately recognisable
-        return "exc", e
-    except Exception as e:
-        return "exc", e
+    """Call fn; return ('ok', value) or ('exc', exception).  A wall-clock
+    watchdog of GUARD_SECONDS (>= 1000x the slowest legitimate call) turns a
+    call that never returns into ('exc', HangError)."""
+    st, val = guard_timed(GUARD_SECONDS, fn, *a, **kw)
+    if st == "hang":
+        return "exc", HangError("call did not finish within %ds" % GUARD_SECONDS)
+    return st, val
+
+
+GUARD_SECONDS = 30
 
 
 class Hang(BaseException):
